@@ -12,7 +12,7 @@ CONSTANTS FAMILY, OUT
 
 Kids1 == <<X, YZ, TrStk("AND", <<X, Y>>), KV>>
 Kids2 == <<LT, U, KGeS>>
-Kids3 == <<E, N, TrStk("NOT", <<X>>), UU>>
+Kids3 == <<E, N, TrStk("NOT", <<X>>), UU, WS>>
 
 \* F1: every option combination on the root, fixed children
 FamRoot == UNION {Configs(k, kids) : k \in Kinds4, kids \in {Kids1, Kids2, Kids3}}
@@ -24,7 +24,7 @@ FamChild ==
 
 \* F3: shapes -- all child sequences up to a width over the alternatives that matter:
 \* leaves of every text class, empty / BASIC / NOT stacks, valid and invalid Conditions
-Alts == {X, YZ, E, U, UU, N, B, LT,
+Alts == {X, YZ, E, U, UU, WS, N, B, LT,
          TrStk("AND", <<>>), TrStk("BASIC", <<X>>), [TrStk("OR", <<>>) EXCEPT !.paren = TRUE],
          TrStk("NOT", <<X>>), TrStk("NOT", <<>>), [TrStk("NOT", <<X, Y>>) EXCEPT !.fold = TRUE],
          [TrStk("NOT", <<X>>) EXCEPT !.sym = <<"!">>], [TrStk("OR", <<X, Y>>) EXCEPT !.paren = TRUE],
